@@ -12,7 +12,7 @@ if len(sys.argv) > 2 and sys.argv[1] == '--tree':
 ENV = dict(os.environ)
 if TREE != '/repo':
     ENV['VERIF_REPO'] = TREE
-names = sys.argv[1:] or sorted(os.path.basename(p) for p in glob.glob(V + '/seeded/*') if os.path.isdir(p))
+names = sys.argv[1:] or sorted(os.path.basename(p) for p in glob.glob(V + '/seeded/C*') if os.path.isdir(p))
 rows = []
 for name in names:
     d = os.path.join(V, 'seeded', name)
